@@ -100,4 +100,30 @@ def checkBindOne (tbl : List RegRow) (al : List (Nat × Nat)) (o b : R) : Option
 def checkBind (tbl : List RegRow) (al : List (Nat × Nat)) (pairs : List (R × R)) : Option String :=
   pairs.findSome? (fun p => checkBindOne tbl al p.1 p.2)
 
+/-! ### `accept-file`: a whole file through the entry point `pass.Compile` -/
+
+/-- What the per-function route (the real allocation passes on an identical copy of ONE function) said. -/
+inductive FnOutcome where
+  | ok        -- an assignment was found, bound and verified
+  | err       -- no valid assignment was found (allocation / binding / verification reported an error)
+  | unknown   -- the function did not get as far as allocation on that route: not judged here
+  deriving Repr, DecidableEq, Inhabited
+
+/-- `none` = accepted; `some j` = `Compile` reported success although function `j` of the file has no valid
+assignment. (An error of `Compile` is always acceptable to the property.) -/
+def checkFile (perFn : List FnOutcome) (compiled : Bool) : Option Nat :=
+  if compiled then perFn.findIdx? (· == .err) else none
+
+/-! ### `accept-print`: the printed assembly of a successfully compiled file -/
+
+/-- how `reg.virtual.Asm()` starts: `<virtual:idx:kind:size>` -/
+def virtualMark : List Char := "<virtual".toList
+
+def hasSub (p : List Char) : List Char → Bool
+  | [] => p.isEmpty
+  | c :: cs => p.isPrefixOf (c :: cs) || hasSub p cs
+
+/-- the printed text mentions no virtual register -/
+def noVirtualText (s : List Char) : Bool := !hasSub virtualMark s
+
 end Avo.AllocCheck
